@@ -7,7 +7,12 @@ games, truncations, compression loops, counts), 250+ MX/SRV records with odd pre
 frames, replies to older/unknown ids, random bytes.  Oracle: no sanitizer report, crash or timeout; a reply that matches none of the three most
 recent query ids (or not the expected first character) causes no tun write and leaves the reassembly state unchanged.
 Theorems: Props/C06.lean (answer decoding never faults and uses the datagram's own bytes only; the login reply path runs at most two
-commands made of validated text)."""
+commands made of validated text).
+
+`hostile_server_part`: the same client against a fully hostile but PLAUSIBLE server (checks/fakesrv.py) that plays along with the whole protocol —
+so that what lies BEHIND an answer that changes the client's view of the session (another user id, another seed, …) is reached, which a hostile
+path in front of the REAL server cannot do (the real server refuses what follows).  Oracle: no sanitizer report / crash / hang (60 s per op); every
+`system()` is a validated C13 command; the Lean handshake + tunnel model is diffed on every run."""
 import os, random, struct
 import vlib
 import iodproto as P
@@ -150,6 +155,83 @@ def one(args):
     return out
 
 
+def abort_kind(stderr):
+    """what distinguishes one abort from another: the sanitizer's own line, without the scratch build path and the offending values"""
+    import re
+    for l in stderr.split("\n"):
+        if "runtime error:" in l:
+            m = re.search(r"([\w.]+\.[ch]:\d+):\d+: runtime error: (.*)", l)
+            return ("%s %s" % (m.group(1), re.sub(r"-?\d+", "N", m.group(2))))[:90] if m else l[-90:]
+        if "ERROR: AddressSanitizer" in l:
+            m = re.search(r"AddressSanitizer: (\S+)", l)
+            frame = next((m2 for m2 in (re.search(r" in (\w+) .*?([\w.]+\.[ch]:\d+)", x) for x in stderr.split("\n") if x.strip().startswith("#") and "libsanitizer" not in x) if m2), None)
+            return ("asan %s %s" % (m.group(1) if m else "?", "%s %s" % (frame.group(1), frame.group(2)) if frame else ""))[:90]
+        if "TIMEOUT" in l:
+            return "timeout"
+    return "crash"
+
+
+def same_abort(ops, kind):
+    r = vlib.run_lines(vlib.build_cli(), ops, timeout=120, env_extra={"VERIF_LINEBUF": "1"})
+    return r.rc != 0 and abort_kind(r.stderr) == kind
+
+
+def minimise(ops, kind, budget=400):
+    """greedy removal of single client ops (replies the client ignored, duplicates, frames) that keeps the same abort; the op list of a
+    handshake is a chain (every query id and name follows from the ones before), so most ops cannot go"""
+    if kind == "timeout" or len(ops) > budget or not same_abort(ops, kind):
+        return ops
+    i = len(ops) - 2
+    while i >= 2:
+        cand = ops[:i] + ops[i + 1:]
+        if same_abort(cand, kind):
+            ops = cand
+        i -= 1
+    return ops
+
+
+def hostile_server_part(chk):
+    """runs of the REAL client against checks/fakesrv.FakeServer; returns the runs (for the client-model diff)"""
+    import fakesrv, c13
+    thorough = chk.tier == "thorough"
+    n, steps = (4000, 300) if thorough else (720, 200)
+    res = fakesrv.run_batch(chk.seed, n, steps)
+    aborts, badcmd, ncmd, rets, srvstats = {}, 0, 0, {}, {}
+    for r in res:
+        rets[str(r["handshake"])] = rets.get(str(r["handshake"]), 0) + 1
+        for k, v in r["srv"].items():
+            srvstats[k] = srvstats.get(k, 0) + v
+        ncmd += len(r["sys"])
+        for cmd in r["sys"]:
+            if not c13.command_ok(cmd):
+                badcmd += 1
+                chk.violation("C06/C13 fails on the implementation: a hostile server made the client run the shell command %r (fake-server run, seed %d)" % (cmd[:200], r["seed"]),
+                              ["C " + o for o in r["cops"]], key="c06:fakesrv-cmd")
+        if r["dead"]:
+            kind = abort_kind(r["dead"][2])
+            aborts.setdefault(kind, []).append(r)
+    for kind, rs in sorted(aborts.items()):
+        r = min(rs, key=lambda x: len(x["cops"]))
+        ops = minimise(list(r["cops"]), kind)
+        chk.violation("C06 fails on the implementation: the client aborted (rc=%s; sanitizer report, crash or hang) against a hostile but plausible server: %s  [%d of %d fake-server runs; "
+                      "shortest: seed %d, user id told %d, configuration %s; replay = its client ops, %d after removing what the abort does not need] on %s\n%s"
+                      % (r["dead"][1], kind, len(rs), len(res), r["seed"], r["uid"], r["cfg"], len(ops), r["dead"][0][:160], r["dead"][2][:2600]),
+                      ["C " + o for o in ops], key="c06:fakesrv-abort:" + kind)
+    neg = {}
+    for r in res:
+        if r["handshake"] == ("ret", 0):
+            k = "qt=%s enc=%s dn=%s lazy=%s conn=%s e0=%s" % tuple(r["state"].get(x) for x in ("qt", "enc", "dn", "lazy", "conn", "e0"))
+            neg[k] = neg.get(k, 0) + 1
+    chk.notes["hostile_server"] = {"runs": len(res), "client_ops": sum(r["ncops"] for r in res), "queries_answered": sum(r["nq"] for r in res), "handshake_results": rets,
+                                   "handshakes_completed": rets.get("('ret', 0)", 0), "distinct_negotiated_settings": len(neg), "tun_writes": sum(r["ntunw"] for r in res),
+                                   "tunnel_returned_on_its_own": sum(1 for r in res if r["client_ret"] is not None), "commands_run": ncmd, "unvalidated_commands": badcmd,
+                                   "aborts": {k: len(v) for k, v in aborts.items()}, "real_zlib_runs": sum(1 for r in res if r["real_z"]),
+                                   "user_ids_told_16_or_more": sum(1 for r in res if r["uid"] > 15), "slowest_op_s": round(max(r["slowest"] for r in res), 2),
+                                   "server_answer_kinds": srvstats}
+    chk.sample({"hostile server run": res[0]["cfg"], "handshake": str(res[0]["handshake"]), "user id told": res[0]["uid"], "client_ops": res[0]["ncops"]})
+    return res
+
+
 def run(chk):
     rng, thorough = chk.rng, chk.tier == "thorough"
     proof_ok = chk.proofs()
@@ -197,8 +279,15 @@ def run(chk):
             chk.violation("C06 fails on the implementation: the client harness aborted during a %s handshake (rc=%s) on: %s\n%s" % (r["kind"], r["dead"][1], r["dead"][0], r["dead"][2]),
                           ["C " + o for o in r["cops"]], key="c06:hs-abort")
     chk.notes["directed_handshakes"] = {"runs": len(res2), "results": rets}
-    chk.cov["traces_validated_against_impl"] = len(res) + len(res2)
-    W.report_client_model(chk, res + res2, "C06")
+    # the client against a hostile server that plays along (checks/fakesrv.py)
+    res3 = hostile_server_part(chk)
+    chk.cov["evaluations"] = nops + sum(r["ncops"] for r in res3)
+    chk.cov["distinct_nontrivial"] = hs_ok + sum(1 for r in res3 if r["handshake"] == ("ret", 0))
+    chk.cov["traces_validated_against_impl"] = len(res) + len(res2) + len(res3)
+    chk.cov["rule"] += ("; plus %d runs against a scripted hostile server that answers every query of the whole protocol with adversarial but plausible fields (user id, seed, "
+                        "login text, addresses, echoes, codec / option names, probe answers, data headers, lengths to 64 KiB, stale ids, other record types, raw frames), "
+                        "so that the handshake completes and the tunnel phase is reached whatever the client was told" % len(res3))
+    W.report_client_model(chk, res + res2 + [r for r in res3 if not r["real_z"]], "C06")
     W.report_server_model(chk, res, "C06")
     if not chk.violations and not proof_ok:
         chk.violation("proof obligation no longer checks: " + chk.proof_detail,
@@ -206,6 +295,16 @@ def run(chk):
 
 
 def replay(chk, path):
+    lines = [l.rstrip("\n") for l in open(path) if l.strip() and not l.startswith("#")]
+    if not any(l.startswith("S ") or l.startswith("C ") for l in lines):
+        # plain client ops (corpus/C06/*.ops)
+        r = vlib.run_lines(vlib.build_cli(), lines, env_extra={"VERIF_LINEBUF": "1"})
+        for o, l in zip(lines, r.lines):
+            print("C", o[:90], "->", l.split(" | st")[0][:200])
+        if r.rc:
+            print(r.stderr[:3000])
+        chk.cov.update({"evaluations": 1, "distinct_nontrivial": 0})
+        return 1 if r.rc else 0
     d = W.replay_world(path)
     chk.cov.update({"evaluations": 1, "distinct_nontrivial": 0})
     return 1 if (d[0] or d[1]) else 0
